@@ -362,6 +362,30 @@ func runC13(c *fw.Ctx) {
 					return
 				}
 			}
+			// copies made with Clone and attached to the same file (the documented way to duplicate
+			// code): the walk still meets every node exactly once
+			if len(df.Decls) > 0 {
+				orig := len(df.Decls)
+				for k := 0; k < orig && k < 6; k++ {
+					df.Decls = append(df.Decls, dst.Clone(df.Decls[(k*7)%orig]).(dst.Decl))
+				}
+				met := map[dst.Node]int{}
+				var twice dst.Node
+				dst.Inspect(df, func(n dst.Node) bool {
+					if n != nil {
+						met[n]++
+						if met[n] == 2 && twice == nil {
+							twice = n
+						}
+					}
+					return true
+				})
+				if twice != nil {
+					c.Violate("visited-twice", "visited-twice:after-clone:"+refl.TypeName(twice), fmt.Sprintf("%s: after appending clones of declarations to the file, dst.Inspect meets a %s twice", id, refl.TypeName(twice)), string(src))
+				}
+				c.Count("files_with_attached_clones", 1)
+				df.Decls = df.Decls[:orig]
+			}
 			// the same file decorated with import management (syntax-only resolver): only selectors
 			// whose operand is a bare identifier that names an import and is not a local object are
 			// merged into one identifier; everything else is visited as in go/ast
